@@ -22,6 +22,9 @@ Next == /\ r <= Len(Runs)
               /\ Must(R.identical = 1, w @@ [what |-> "output differs between two runs on the same input", file |-> R.differs])
               /\ Must(R.versionline = 1 /\ R.major = R.wantmajor /\ R.minor = R.wantminor, w @@ [what |-> "generated code does not declare the requested SDK version", observed |-> << R.major, R.minor >>])
               /\ Must(R.compiles = 1, w @@ [what |-> "generated code does not compile with the support code", log |-> R.log])
+              /\ \A i \in DOMAIN R.types :
+                   Must(R.types[i].found = 1 /\ TypeRelation(R.types[i], R.types[i].obs),
+                        w @@ [what |-> "constants of a type do not match its rows in the types sheet", type |-> R.types[i].name])
               /\ \A i \in DOMAIN R.msgs :
                    Must(Relation(Rows(R.msgs[i]), [struct |-> R.msgs[i].struct, entries |-> R.msgs[i].entries]),
                         w @@ [what |-> "struct fields / lookup entries do not match the enabled rows", msg |-> R.msgs[i].name])
